@@ -1,11 +1,674 @@
-(* Proofs about model/Gen.v. *)
+(* Proofs about model/Gen.v: the listing round trip (render, then read as documented), validation
+   and compilation make an accepted program well-formed in the sense of C05, the literal execution
+   of the listing simulates the name-keyed interpreter on the allocated program, chain/ops/script
+   outputs. *)
 From Coq Require Import String.
 From Coq Require Import List NArith ZArith Bool Arith Lia.
 From AV Require Import model.Proto model.Chain model.Ast model.Ir model.Peg model.Printer model.Translate
-  model.AstProto model.Alloc model.Interp model.Gen proofs.AllocProofs proofs.InterpProofs.
+  model.AstProto model.Alloc model.Interp model.Gen proofs.AllocProofs proofs.InterpProofs proofs.TranslateBasics.
+From AV Require model.Program.
 Import ListNotations.
 Open Scope Z_scope.
 
-(* an instruction-less program never reaches the templates *)
-Lemma prepare_empty_refused cfg s : translate s = Ok [] -> prepare cfg s = Err ($"empty").
-Proof. intros E. unfold prepare. rewrite E. reflexivity. Qed.
+(* ------------------------------------------------------------------ split / join *)
+Lemma split_nosep sep a : ~ In sep a -> split sep a = [a].
+Proof.
+  induction a as [|c a IH]; intros H; cbn [split]; [reflexivity|].
+  destruct (N.eqb_spec c sep) as [->|Hne]; [exfalso; apply H; now left|].
+  rewrite IH by (intros Hin; apply H; now right). reflexivity.
+Qed.
+
+Lemma split_app sep a b : ~ In sep a -> split sep (a ++ sep :: b) = a :: split sep b.
+Proof.
+  induction a as [|c a IH]; intros H; cbn [split app].
+  - now rewrite N.eqb_refl.
+  - destruct (N.eqb_spec c sep) as [->|Hne]; [exfalso; apply H; now left|].
+    rewrite IH by (intros Hin; apply H; now right). reflexivity.
+Qed.
+
+Lemma split_join sep l : l <> [] -> (forall x, In x l -> ~ In sep x) -> split sep (join [sep] l) = l.
+Proof.
+  induction l as [|x l IH]; intros Hne H; [congruence|].
+  destruct l as [|y l].
+  - cbn [join]. apply split_nosep, H. now left.
+  - change (join [sep] (x :: y :: l)) with (x ++ [sep] ++ join [sep] (y :: l)).
+    cbn [app]. rewrite split_app by (apply H; now left).
+    rewrite IH; [reflexivity|discriminate|]. intros z Hz. apply H. now right.
+Qed.
+
+Lemma join_nosep sep c l : c <> sep -> (forall x, In x l -> ~ In c x) -> ~ In c (join [sep] l).
+Proof.
+  intros Hc. induction l as [|x l IH]; intros H; [intros []|].
+  destruct l as [|y l].
+  - cbn [join]. apply H. now left.
+  - change (join [sep] (x :: y :: l)) with (x ++ [sep] ++ join [sep] (y :: l)).
+    intros Hin. apply in_app_or in Hin as [Hin|Hin]; [apply (H x); [now left|exact Hin]|].
+    cbn [app] in Hin. destruct Hin as [E|Hin]; [congruence|].
+    revert Hin. apply IH. intros z Hz. apply H. now right.
+Qed.
+
+Lemma drop_last_empty_app l : drop_last_empty (l ++ [[]]) = Some l.
+Proof.
+  induction l as [|x l IH]; [reflexivity|].
+  cbn [app]. destruct l as [|y l].
+  - cbn [app]. destruct x; reflexivity.
+  - cbn [app] in *. cbn [drop_last_empty]. destruct x; cbn [drop_last_empty] in IH |- *; rewrite IH; reflexivity.
+Qed.
+
+(* ------------------------------------------------------------------ decimal digits *)
+Lemma print_base_digits f : forall n l c, (forall d, In d l -> (48 <= d <= 57)%N) ->
+  In c (print_base_fuel 10 f n l) -> (48 <= c <= 57)%N.
+Proof.
+  induction f as [|f IH]; intros n l c Hl Hc; cbn [print_base_fuel] in Hc; [auto|].
+  assert (Hd : (48 <= hexchar (n mod 10) <= 57)%N).
+  { assert (Hr : (n mod 10 < 10)%N) by (apply N.mod_lt; discriminate). unfold hexchar.
+    generalize dependent (n mod 10)%N. intros r Hr. destruct (N.ltb_spec r 10); lia. }
+  destruct (n / 10 =? 0)%N.
+  - destruct Hc as [<-|Hc]; auto.
+  - apply (IH (n / 10)%N (hexchar (n mod 10) :: l) c); [|exact Hc]. intros d [<-|Hin]; auto.
+Qed.
+
+Lemma print_decN_digits n c : In c (print_decN n) -> (48 <= c <= 57)%N.
+Proof. apply print_base_digits. intros d []. Qed.
+
+Lemma print_base_keeps f : forall n l, l <> [] -> print_base_fuel 10 f n l <> [].
+Proof.
+  induction f as [|f IH]; intros n l Hl; cbn [print_base_fuel]; [exact Hl|].
+  destruct (n / 10 =? 0)%N; [discriminate|]. apply IH. discriminate.
+Qed.
+
+Lemma print_decN_nonempty n : print_decN n <> [].
+Proof.
+  unfold print_decN. cbn [print_base_fuel].
+  destruct (n / 10 =? 0)%N; [discriminate|]. apply print_base_keeps. discriminate.
+Qed.
+
+Lemma parse_print_decN n : parse_decN (print_decN n) = Some n.
+Proof.
+  pose proof (print_decN_nonempty n) as Hne. revert Hne. unfold print_decN.
+  destruct (print_dec_parse (S (N.to_nat (N.size n))) n []) as (ds & k & Ed & Hp); [lia| |].
+  - rewrite Nat2N.inj_succ, N2Nat.id, N.pow_succ_r'. pose proof (N.size_gt n). lia.
+  - rewrite Ed, app_nil_r. intros Hne. unfold parse_decN.
+    destruct ds as [|d ds]; [congruence|].
+    rewrite Hp. f_equal.
+Qed.
+
+(* ------------------------------------------------------------------ listing round trip *)
+(* a name that can stand in a tab-separated, newline-terminated field *)
+Definition clean (n : list N) : Prop := n <> [] /\ ~ In tab n /\ ~ In nl n.
+
+Definition names_clean (q : list (list N) * iprogram) : Prop :=
+  (forall n, In n (fst q) -> clean n) /\
+  (forall i o, In i (snd q) -> In o (operands i) -> clean (operand_str o)).
+
+Lemma kw_tmp : $"tmp" = [116; 109; 112]%N. Proof. reflexivity. Qed.
+Lemma kw_add : $"add" = [97; 100; 100]%N. Proof. reflexivity. Qed.
+Lemma kw_double : $"double" = [100; 111; 117; 98; 108; 101]%N. Proof. reflexivity. Qed.
+Lemma kw_shift : $"shift" = [115; 104; 105; 102; 116]%N. Proof. reflexivity. Qed.
+
+Definition listing_body (i : instr) : list N :=
+  match iopn i with
+  | IAdd x y => $"add" ++ tab :: operand_str (iout i) ++ tab :: operand_str x ++ tab :: operand_str y
+  | IDouble x => $"double" ++ tab :: operand_str (iout i) ++ tab :: operand_str x
+  | IShift x s => $"shift" ++ tab :: operand_str (iout i) ++ tab :: operand_str x ++ tab :: print_decN s
+  end.
+
+Lemma listing_line_body i : listing_line i = listing_body i ++ [nl].
+Proof.
+  unfold listing_line, listing_body. destruct (iopn i); repeat rewrite <- app_assoc; cbn [app];
+    repeat (rewrite <- app_assoc; cbn [app]); reflexivity.
+Qed.
+
+Lemma digits_no c n : (c < 48)%N -> ~ In c (print_decN n).
+Proof. intros Hc Hin. apply print_decN_digits in Hin. lia. Qed.
+
+Lemma operands_clean q i : names_clean q -> In i (snd q) ->
+  clean (operand_str (iout i)) /\ forall o, In o (inputs (iopn i)) -> clean (operand_str o).
+Proof.
+  intros [_ H] Hi. split; [apply (H i); [exact Hi|unfold operands; apply in_or_app; right; now left]|].
+  intros o Ho. apply (H i); [exact Hi|unfold operands; apply in_or_app; now left].
+Qed.
+
+Ltac inapp := rewrite ?in_app_iff; cbn [In]; rewrite ?in_app_iff; cbn [In]; rewrite ?in_app_iff; cbn [In]; rewrite ?in_app_iff; cbn [In].
+
+Lemma listing_body_nonl q i : names_clean q -> In i (snd q) -> ~ In nl (listing_body i).
+Proof.
+  intros Hq Hi. destruct (operands_clean q i Hq Hi) as [(_ & _ & Ho) Hin].
+  unfold listing_body. destruct (iopn i) as [x y|x|x s]; cbn [inputs] in Hin.
+  - destruct (Hin x (or_introl eq_refl)) as (_ & _ & Hx). destruct (Hin y (or_intror (or_introl eq_refl))) as (_ & _ & Hy).
+    rewrite kw_add. inapp. unfold nl, tab in *.
+    intuition congruence.
+  - destruct (Hin x (or_introl eq_refl)) as (_ & _ & Hx).
+    rewrite kw_double. inapp. unfold nl, tab in *.
+    intuition congruence.
+  - destruct (Hin x (or_introl eq_refl)) as (_ & _ & Hx).
+    assert (Hs : ~ In nl (print_decN s)) by (apply digits_no; reflexivity).
+    rewrite kw_shift. inapp. unfold nl, tab in *.
+    intuition congruence.
+Qed.
+
+Lemma split4 k a b c : ~ In tab k -> ~ In tab a -> ~ In tab b -> ~ In tab c ->
+  split tab (k ++ tab :: a ++ tab :: b ++ tab :: c) = [k; a; b; c].
+Proof. intros Hk Ha Hb Hc. rewrite !split_app by assumption. now rewrite split_nosep. Qed.
+
+Lemma split3 k a b : ~ In tab k -> ~ In tab a -> ~ In tab b ->
+  split tab (k ++ tab :: a ++ tab :: b) = [k; a; b].
+Proof. intros Hk Ha Hb. rewrite !split_app by assumption. now rewrite split_nosep. Qed.
+
+Lemma read_line_body q i : names_clean q -> In i (snd q) -> read_line (listing_body i) = Some (linstr_of i).
+Proof.
+  intros Hq Hi. destruct (operands_clean q i Hq Hi) as [(_ & Ho & _) Hin].
+  unfold read_line, listing_body, linstr_of. destruct (iopn i) as [x y|x|x s]; cbn [inputs] in Hin.
+  - destruct (Hin x (or_introl eq_refl)) as (_ & Hx & _). destruct (Hin y (or_intror (or_introl eq_refl))) as (_ & Hy & _).
+    rewrite split4; auto. rewrite kw_add. unfold tab. cbn [In]. intuition congruence.
+  - destruct (Hin x (or_introl eq_refl)) as (_ & Hx & _).
+    rewrite split3; auto. rewrite kw_double. unfold tab. cbn [In]. intuition congruence.
+  - destruct (Hin x (or_introl eq_refl)) as (_ & Hx & _).
+    rewrite split4; auto.
+    + change (str_eqb $"shift" $"add") with false. change (str_eqb $"shift" $"shift") with true. cbv iota.
+      rewrite parse_print_decN. reflexivity.
+    + rewrite kw_shift. unfold tab. cbn [In]. intuition congruence.
+    + apply digits_no. reflexivity.
+Qed.
+
+Lemma split_lines q : names_clean q ->
+  split nl (flat_map listing_line (snd q)) = map listing_body (snd q) ++ [[]].
+Proof.
+  intros Hq. assert (H : forall i, In i (snd q) -> ~ In nl (listing_body i)) by (intros i; apply (listing_body_nonl q i Hq)).
+  induction (snd q) as [|i r IH]; [reflexivity|].
+  cbn [flat_map map app]. rewrite listing_line_body, <- app_assoc. cbn [app].
+  rewrite split_app by (apply H; now left). rewrite IH; [reflexivity|]. intros j Hj. apply H. now right.
+Qed.
+
+Lemma read_lines q : names_clean q -> map_opt read_line (map listing_body (snd q)) = Some (map linstr_of (snd q)).
+Proof.
+  intros Hq. assert (H : forall i, In i (snd q) -> read_line (listing_body i) = Some (linstr_of i)) by (intros i; apply (read_line_body q i Hq)).
+  induction (snd q) as [|i r IH]; [reflexivity|].
+  cbn [map map_opt]. rewrite H by now left. rewrite IH; [reflexivity|]. intros j Hj. apply H. now right.
+Qed.
+
+Lemma read_tmp_line temps : (forall n, In n temps -> clean n) ->
+  read_tmp ($"tmp" ++ tab :: join [tab] temps) = Some temps.
+Proof.
+  intros H. unfold read_tmp. rewrite split_app by (rewrite kw_tmp; unfold tab; cbn [In]; intuition congruence).
+  rewrite str_eqb_refl. f_equal.
+  destruct temps as [|t ts]; [reflexivity|].
+  rewrite split_join; [|discriminate|intros x Hx; apply (H x Hx)].
+  destruct (H t (or_introl eq_refl)) as (Hne & _). destruct t; [congruence|reflexivity].
+Qed.
+
+(* rendering an allocated program and reading the text as documented gives back the declared
+   temporaries and the instructions *)
+Theorem listing_roundtrip q : names_clean q ->
+  read_listing (render_listing q) = Some (fst q, map linstr_of (snd q)).
+Proof.
+  intros Hq. unfold render_listing, read_listing.
+  assert (E : $"tmp" ++ [tab] ++ join [tab] (fst q) ++ [nl] ++ flat_map listing_line (snd q)
+              = ($"tmp" ++ tab :: join [tab] (fst q)) ++ nl :: flat_map listing_line (snd q)).
+  { repeat (rewrite <- app_assoc; cbn [app]). reflexivity. }
+  rewrite E. rewrite split_app.
+  - rewrite (split_lines q Hq).
+    change (($"tmp" ++ tab :: join [tab] (fst q)) :: map listing_body (snd q) ++ [[]])
+      with ((($"tmp" ++ tab :: join [tab] (fst q)) :: map listing_body (snd q)) ++ [[]]).
+    rewrite drop_last_empty_app. rewrite read_tmp_line by apply Hq. rewrite (read_lines q Hq). reflexivity.
+  - rewrite in_app_iff. cbn [In]. rewrite kw_tmp. intros [Hin|[Hin|Hin]].
+    + unfold nl in Hin. cbn [In] in Hin. intuition congruence.
+    + discriminate Hin.
+    + revert Hin. apply join_nosep; [discriminate|]. intros x Hx. apply (proj1 Hq x Hx).
+Qed.
+
+(* ------------------------------------------------------------------ Translate never emits a shift by zero *)
+Definition tnz (ti : tinstr) : Prop := match topn ti with TShift _ s => s <> 0%N | _ => True end.
+Definition tnzs (is : list tinstr) : Prop := forall ti, In ti is -> tnz ti.
+
+Lemma tnzs_snoc is ti : tnzs is -> tnz ti -> tnzs (is ++ [ti]).
+Proof. intros H Ht x Hx. apply in_app_or in Hx as [Hx|[<-|[]]]; auto. Qed.
+
+Lemma t_expr_tnzs e : forall st r, t_expr e st = Ok r -> tnzs (tinstrs st) -> tnzs (tinstrs (snd r)).
+Proof.
+  induction e as [i|name|x IHx y IHy|x IHx s|x IHx]; intros st r H Hst; cbn [t_expr] in H.
+  - injection H as <-. exact Hst.
+  - destruct (lookup name (tvars st)); [|discriminate]. injection H as <-. exact Hst.
+  - destruct (t_expr x st) as [[ix st1]| | |] eqn:E1; cbn [obind] in H; try discriminate.
+    destruct (t_expr y st1) as [[iy st2]| | |] eqn:E2; cbn [obind] in H; try discriminate.
+    destruct (obj_index st2 ix) as [vx| | |]; cbn [obind] in H; try discriminate.
+    destruct (obj_index st2 iy) as [vy| | |]; cbn [obind] in H; try discriminate.
+    pose proof (IHy _ _ E2 (IHx _ _ E1 Hst)) as H2. cbn [snd] in H2.
+    destruct (vx >? vy); injection H as <-; cbn [emit snd tinstrs]; apply tnzs_snoc; auto; exact I.
+  - destruct (t_expr x st) as [[ix st1]| | |] eqn:E1; cbn [obind] in H; try discriminate.
+    pose proof (IHx _ _ E1 Hst) as H1. cbn [snd] in H1.
+    destruct (s =? 0)%N eqn:Es.
+    + injection H as <-. exact H1.
+    + injection H as <-. cbn [emit snd tinstrs]. apply tnzs_snoc; [exact H1|].
+      unfold tnz. cbn [topn]. now apply N.eqb_neq.
+  - destruct (t_expr x st) as [[ix st1]| | |] eqn:E1; cbn [obind] in H; try discriminate.
+    pose proof (IHx _ _ E1 Hst) as H1. cbn [snd] in H1.
+    injection H as <-. cbn [emit snd tinstrs]. apply tnzs_snoc; [exact H1|exact I].
+Qed.
+
+Lemma t_stmts_tnzs ss : forall st st', t_stmts ss st = Ok st' -> tnzs (tinstrs st) -> tnzs (tinstrs st').
+Proof.
+  induction ss as [|s ss IH]; intros st st' H Hst; cbn [t_stmts] in H.
+  - injection H as <-. exact Hst.
+  - unfold t_stmt in H. destruct (t_expr (sexpr s) st) as [[out st1]| | |] eqn:E1; cbn [obind] in H; try discriminate.
+    pose proof (t_expr_tnzs _ _ _ E1 Hst) as H1. cbn [snd] in H1.
+    unfold define in H. destruct (lookup (sname s) (tvars st1)); cbn [obind] in H; [discriminate|].
+    apply (IH _ _ H). exact H1.
+Qed.
+
+Definition nz_shifts (p : iprogram) : Prop :=
+  forall i, In i p -> match iopn i with IShift _ s => s <> 0%N | _ => True end.
+
+Lemma map_opt_In {A B} (f : A -> option B) l : forall l' y, map_opt f l = Some l' -> In y l' -> exists x, In x l /\ f x = Some y.
+Proof.
+  induction l as [|x l IH]; intros l' y H Hy; cbn [map_opt] in H.
+  - injection H as <-. destruct Hy.
+  - destruct (f x) as [b|] eqn:Ef; [|discriminate]. destruct (map_opt f l) as [bs|] eqn:Em; [|discriminate].
+    injection H as <-. destruct Hy as [<-|Hy].
+    + exists x. split; [now left|exact Ef].
+    + destruct (IH _ _ eq_refl Hy) as (x' & Hx' & E). exists x'. split; [now right|exact E].
+Qed.
+
+Lemma translate_nz_shifts s p : translate s = Ok p -> nz_shifts p.
+Proof.
+  unfold translate. destruct (t_stmts s tinit) as [st| | |] eqn:E; cbn [obind]; try discriminate.
+  destruct (map_opt (resolve_instr (tobjs st)) (tinstrs st)) as [p'|] eqn:Em; [|discriminate].
+  intros H. injection H as <-. intros i Hi.
+  destruct (map_opt_In _ _ _ _ Em Hi) as (ti & Hti & Er).
+  assert (Hnz : tnz ti) by (apply (t_stmts_tnzs _ _ _ E); [intros x []|exact Hti]).
+  unfold resolve_instr in Er. destruct (nth_error (tobjs st) (tout ti)) as [oo|]; [|discriminate].
+  destruct (resolve_op (tobjs st) (topn ti)) as [rop|] eqn:Eo; [|discriminate]. injection Er as <-. cbn [iopn].
+  unfold tnz in Hnz. unfold resolve_op in Eo. destruct (topn ti) as [a b|a|a sh].
+  - destruct (nth_error (tobjs st) a); [|discriminate]. destruct (nth_error (tobjs st) b); [|discriminate]. injection Eo as <-. exact I.
+  - destruct (nth_error (tobjs st) a); [|discriminate]. injection Eo as <-. exact I.
+  - destruct (nth_error (tobjs st) a); [|discriminate]. injection Eo as <-. exact Hnz.
+Qed.
+
+(* ------------------------------------------------------------------ compile fixes the output indexes *)
+Lemma add_out p i j p' out : Program.add p i j = (p', Ok out) ->
+  length p' = S (length p) /\ out = Z.of_nat (length p').
+Proof.
+  unfold Program.add. destruct (Program.boundscheck p i) as [[]| | |]; cbn [obind]; try (intros H; discriminate H).
+  destruct (Program.boundscheck p j) as [[]| | |]; cbn [obind]; try (intros H; discriminate H).
+  intros H. injection H as <- <-. rewrite app_length. cbn [length]. split; [lia|reflexivity].
+Qed.
+
+Lemma shift_loop_out s : forall p i p' out, Program.shift_loop s p i = (p', Ok out) -> s <> O ->
+  (length p' = length p + s)%nat /\ out = Z.of_nat (length p').
+Proof.
+  induction s as [|s IH]; intros p i p' out H Hs; [congruence|].
+  cbn [Program.shift_loop] in H. unfold Program.double in H.
+  destruct (Program.add p i i) as [p1 r1] eqn:Ea. destruct r1 as [next| | |]; try discriminate H.
+  destruct (add_out _ _ _ _ _ Ea) as [L1 E1].
+  destruct s as [|s'].
+  - cbn [Program.shift_loop] in H. injection H as <- <-. split; [lia|exact E1].
+  - destruct (IH _ _ _ _ H ltac:(discriminate)) as [L2 E2]. split; [lia|exact E2].
+Qed.
+
+Lemma compile_step_out ops0 i p' out : compile_step ops0 i = (p', Ok out) ->
+  match iopn i with IShift _ s => s <> 0%N | _ => True end ->
+  (length ops0 < length p')%nat /\ out = Z.of_nat (length p').
+Proof.
+  unfold compile_step. destruct (iopn i) as [x y|x|x s]; intros H Hnz.
+  - destruct (add_out _ _ _ _ _ H). split; [lia|assumption].
+  - unfold Program.double in H. destruct (add_out _ _ _ _ _ H). split; [lia|assumption].
+  - unfold Program.shift in H. destruct (shift_loop_out _ _ _ _ _ H) as [L E]; [lia|]. split; [lia|exact E].
+Qed.
+
+Lemma forallb_existsb_In (l d : list Z) : forallb (fun x => existsb (Z.eqb x) d) l = true -> forall x, In x l -> In x d.
+Proof. intros H x Hx. rewrite forallb_forall in H. apply existsb_eqb_In, H, Hx. Qed.
+
+(* inputs defined (Validate) + output indexes as compiled (Eval) = well-formed in the sense of C05 *)
+Lemma wf_from_of_compile : forall p d ops0 ops, nz_shifts p -> validate_from d p = Ok tt ->
+  compile_loop ops0 p = Ok ops -> wf_from d (Z.of_nat (length ops0)) p.
+Proof.
+  induction p as [|i r IH]; intros d ops0 ops Hnz Hv Hc; [exact I|].
+  cbn [validate_from] in Hv. destruct (forallb _ (in_indexes i)) eqn:Ef; [|discriminate].
+  cbn [compile_loop] in Hc. destruct (compile_step ops0 i) as [p' res] eqn:Es.
+  destruct res as [out| | |]; cbn [obind] in Hc; try discriminate.
+  destruct (out =? oindex (iout i)) eqn:Eo; [|discriminate]. apply Z.eqb_eq in Eo.
+  destruct (compile_step_out _ _ _ _ Es (Hnz i (or_introl eq_refl))) as [Hlt Eout].
+  cbn [wf_from]. unfold out_index in *. split; [lia|]. split.
+  - apply (forallb_existsb_In _ _ Ef).
+  - assert (E2 : oindex (iout i) = Z.of_nat (length p')) by congruence. rewrite E2 in Hv |- *.
+    apply (IH _ _ ops); [intros j Hj; apply Hnz; now right|exact Hv|exact Hc].
+Qed.
+
+(* ------------------------------------------------------------------ the allocator only changes identifiers *)
+Lemma canonicalize_len : forall p m mf, canonicalize m p = Ok mf -> length (snd mf) = length p.
+Proof.
+  induction p as [|i r IH]; intros m mf H; cbn [canonicalize] in H.
+  - injection H as <-. reflexivity.
+  - destruct (canon_operands m (inputs (iopn i))) as [m1| | |]; cbn [obind] in H; try discriminate.
+    destruct (canon_operand m1 (iout i)) as [m2| | |]; cbn [obind] in H; try discriminate.
+    destruct (canonicalize m2 r) as [mf2| | |] eqn:E; cbn [obind] in H; try discriminate.
+    injection H as <-. cbn [snd length]. f_equal. apply (IH _ _ E).
+Qed.
+
+Lemma rename_strip names : forall p cs, length cs = length p -> map strip (rename names p cs) = map strip p.
+Proof.
+  induction p as [|i r IH]; intros cs H; destruct cs as [|c cs]; try discriminate H; [reflexivity|].
+  cbn [rename map]. rewrite IH by (cbn [length] in H; lia). f_equal.
+  unfold strip. cbn [iout iopn]. f_equal.
+  - destruct c; reflexivity.
+  - destruct (iopn i); reflexivity.
+Qed.
+
+Lemma allocate_strip cfg p q ts : allocate cfg p = Ok (q, ts) -> map strip q = map strip p.
+Proof.
+  unfold allocate. destruct (last_instr p); [|discriminate].
+  destruct (canonicalize [] p) as [mf| | |] eqn:E; cbn [obind]; try discriminate.
+  intros H. injection H as <- _. apply rename_strip, (canonicalize_len _ _ _ E).
+Qed.
+
+Lemma allocate_last cfg p r : allocate cfg p = Ok r -> exists lst, last_instr p = Some lst.
+Proof. unfold allocate. destruct (last_instr p) as [l|]; [eauto|discriminate]. Qed.
+
+(* ------------------------------------------------------------------ a canonicalised program is consistently named *)
+Definition CInv (P : operand -> Prop) (m : list (Z * list N)) : Prop :=
+  forall o, P o -> exists n, zlookup (oindex o) m = Some n /\ (oname o = [] \/ oname o = n).
+
+Lemma is_empty_spec (s : list N) : is_empty s = true <-> s = [].
+Proof. destruct s; cbn; split; congruence. Qed.
+
+Lemma canon_operand_cinv P m o m' : CInv P m -> canon_operand m o = Ok m' -> CInv (fun x => P x \/ x = o) m'.
+Proof.
+  intros HP H. unfold canon_operand in H. destruct (zlookup (oindex o) m) as [ex|] eqn:El.
+  - destruct (negb (is_empty ex) && negb (is_empty (oname o)) && negb (str_eqb ex (oname o))) eqn:Ec; [discriminate|].
+    destruct (negb (is_empty (oname o))) eqn:En.
+    + injection H as <-. intros x [Hx| ->].
+      * destruct (Z.eq_dec (oindex x) (oindex o)) as [E|Hne].
+        -- rewrite E, zlookup_zset_eq. eexists. split; [reflexivity|].
+           destruct (HP x Hx) as (n & Ln & Hn). rewrite E, El in Ln. injection Ln as <-.
+           destruct Hn as [Hn|Hn]; [now left|]. rewrite andb_true_r in Ec.
+           destruct (is_empty ex) eqn:Ee; [apply is_empty_spec in Ee; left; congruence|].
+           cbn [negb andb] in Ec. apply negb_false_iff, str_eqb_eq in Ec. right. congruence.
+        -- rewrite zlookup_zset_neq by exact Hne. apply HP, Hx.
+      * rewrite zlookup_zset_eq. eexists. split; [reflexivity|now right].
+    + injection H as <-. apply negb_false_iff, is_empty_spec in En. intros x [Hx| ->]; [apply HP, Hx|].
+      exists ex. split; [exact El|now left].
+  - injection H as <-. intros x [Hx| ->].
+    + destruct (HP x Hx) as (n & Ln & Hn). destruct (Z.eq_dec (oindex o) (oindex x)) as [E|Hne]; [congruence|].
+      rewrite zlookup_cons_neq by exact Hne. eauto.
+    + rewrite zlookup_cons_eq. eexists. split; [reflexivity|now right].
+Qed.
+
+Lemma canon_operands_cinv os : forall P m m', CInv P m -> canon_operands m os = Ok m' -> CInv (fun x => P x \/ In x os) m'.
+Proof.
+  induction os as [|o r IH]; intros P m m' HP H; cbn [canon_operands] in H.
+  - injection H as <-. intros x [Hx|[]]. apply HP, Hx.
+  - destruct (canon_operand m o) as [m1| | |] eqn:E1; cbn [obind] in H; try discriminate.
+    pose proof (IH _ _ _ (canon_operand_cinv _ _ _ _ HP E1) H) as H2.
+    intros x Hx. apply H2. cbn [In] in Hx. intuition.
+Qed.
+
+Lemma canonicalize_cinv p : forall P m mf, CInv P m -> canonicalize m p = Ok mf ->
+  CInv (fun x => P x \/ In x (all_operands p)) (fst mf).
+Proof.
+  induction p as [|i r IH]; intros P m mf HP H; cbn [canonicalize] in H.
+  - injection H as <-. intros x [Hx|[]]. apply HP, Hx.
+  - destruct (canon_operands m (inputs (iopn i))) as [m1| | |] eqn:E1; cbn [obind] in H; try discriminate.
+    destruct (canon_operand m1 (iout i)) as [m2| | |] eqn:E2; cbn [obind] in H; try discriminate.
+    destruct (canonicalize m2 r) as [mf2| | |] eqn:E3; cbn [obind] in H; try discriminate.
+    injection H as <-. cbn [fst].
+    pose proof (IH _ _ _ (canon_operand_cinv _ _ _ _ (canon_operands_cinv _ _ _ _ HP E1) E2) E3) as H3.
+    intros x Hx. apply H3. unfold all_operands in Hx. cbn [flat_map] in Hx. unfold operands in Hx at 1.
+    rewrite !in_app_iff in Hx. cbn [In] in Hx. unfold all_operands. intuition.
+Qed.
+
+Lemma allocate_consistent cfg p r : allocate cfg p = Ok r -> exists nmap, consistent nmap p.
+Proof.
+  unfold allocate. destruct (last_instr p); [|discriminate].
+  destruct (canonicalize [] p) as [mf| | |] eqn:E; cbn [obind]; try discriminate. intros _.
+  exists (fun k => ident (fst mf) k). intros o Ho.
+  destruct (canonicalize_cinv p (fun _ => False) [] mf) with (o := o) as (n & Ln & Hn); [intros x []|exact E|now right|].
+  unfold ident. rewrite Ln. exact Hn.
+Qed.
+
+(* ------------------------------------------------------------------ register file vs interpreter machine *)
+Lemma rget_rset n v r n' : rget (rset n v r) n' = if str_eqb n n' then Some v else rget r n'.
+Proof.
+  unfold rget. induction r as [|[k w] t IH]; cbn [rset lookup].
+  - destruct (str_eqb n n'); reflexivity.
+  - destruct (str_eqb k n) eqn:Ekn; cbn [lookup].
+    + apply str_eqb_eq in Ekn. subst k. destruct (str_eqb n n'); reflexivity.
+    + rewrite IH. destruct (str_eqb k n') eqn:Ek; [|reflexivity].
+      destruct (str_eqb n n') eqn:En; [|reflexivity].
+      apply str_eqb_eq in Ek, En. subst. rewrite str_eqb_refl in Ekn. discriminate.
+Qed.
+
+Lemma operand_str_named o : oname o <> [] -> operand_str o = oname o.
+Proof. unfold operand_str. destruct (oname o); [congruence|reflexivity]. Qed.
+
+Lemma name_dec (a b : list N) : {a = b} + {a <> b}.
+Proof. apply list_eq_dec, N.eq_dec. Qed.
+
+Section Refine.
+Variable cn : list N -> list N.
+
+(* names and cells: a name and its canonical name share the cell; two names share a cell only
+   when they have the same canonical name; a name that is not canonical is bound *)
+Definition SInv (m : machine) : Prop :=
+  heap_ok m /\ (forall n, load m n = load m (cn n)) /\
+  (forall n1 n2 c, load m n1 = Some c -> load m n2 = Some c -> cn n1 = cn n2) /\
+  (forall n, cn n <> n -> load m n <> None).
+(* the register file holds, under the canonical name, what the machine holds under the name *)
+Definition RInv (m : machine) (r : regfile) : Prop := SInv m /\ forall n, rget r (cn n) = value_of m n.
+
+Lemma output_cell_sinv m o : SInv m ->
+  let m1 := fst (output_cell m o) in let c := snd (output_cell m o) in
+  SInv m1 /\ load m1 (oname o) = Some c /\ (c < length (mheap m1))%nat /\
+  (forall n, load m n <> None \/ n <> oname o -> value_of m1 n = value_of m n) /\
+  (forall n, load m n <> None -> load m1 n = load m n).
+Proof using Type.
+  intros (Hh & H2 & H3 & H5). unfold output_cell. destruct (load m (oname o)) as [c0|] eqn:El; cbn [fst snd].
+  - split; [repeat split; auto|]. split; [exact El|]. split; [apply (Hh _ _ El)|]. split; auto.
+  - unfold new_cell. cbn [fst snd]. set (z := oname o) in *.
+    set (m1 := store {| mstate := mstate m; mheap := mheap m ++ [0] |} z (length (mheap m))).
+    assert (Hl : forall n, load m1 n = if str_eqb z n then Some (length (mheap m)) else load m n).
+    { intros n. unfold m1. rewrite load_store. reflexivity. }
+    assert (Hhp : mheap m1 = mheap m ++ [0]) by reflexivity.
+    assert (Hcz : cn z = z).
+    { destruct (name_dec (cn z) z) as [E|Hne]; [exact E|]. exfalso. apply (H5 z Hne El). }
+    split; [split; [|split; [|split]]|split; [|split; [|split]]].
+    + intros n c. rewrite Hl, Hhp, app_length. cbn [length]. destruct (str_eqb z n); [intros E; injection E as <-; lia|].
+      intros H. specialize (Hh _ _ H). lia.
+    + intros n. rewrite !Hl. destruct (str_eqb z n) eqn:E1.
+      * apply str_eqb_eq in E1. subst n. rewrite Hcz, str_eqb_refl. reflexivity.
+      * destruct (str_eqb z (cn n)) eqn:E2; [|apply H2].
+        apply str_eqb_eq in E2. exfalso.
+        assert (Hne : cn n <> n) by (intros E; rewrite E in E2; subst; rewrite str_eqb_refl in E1; discriminate).
+        apply (H5 n Hne). rewrite H2, <- E2. exact El.
+    + intros n1 n2 c. rewrite !Hl. destruct (str_eqb z n1) eqn:E1; destruct (str_eqb z n2) eqn:E2.
+      * apply str_eqb_eq in E1, E2. congruence.
+      * intros A B. injection A as <-. apply Hh in B. lia.
+      * intros A B. injection B as <-. apply Hh in A. lia.
+      * apply H3.
+    + intros n Hn. rewrite Hl. destruct (str_eqb z n); [discriminate|apply H5, Hn].
+    + rewrite Hl, str_eqb_refl. reflexivity.
+    + rewrite Hhp, app_length. cbn [length]. lia.
+    + intros n Hn. unfold value_of. rewrite Hl. destruct (str_eqb z n) eqn:E.
+      * apply str_eqb_eq in E. subst n. destruct Hn as [Hn|Hn]; congruence.
+      * destruct (load m n) as [cn0|] eqn:Eln; [|reflexivity]. rewrite Hhp. apply nth_error_app_old, (Hh _ _ Eln).
+    + intros n Hn. rewrite Hl. destruct (str_eqb z n) eqn:E; [|reflexivity].
+      apply str_eqb_eq in E. subst n. congruence.
+Qed.
+
+Lemma write_rinv m1 c z v r : SInv m1 -> load m1 z = Some c -> (c < length (mheap m1))%nat ->
+  (forall n, load m1 n <> Some c -> rget r (cn n) = value_of m1 n) ->
+  RInv (heap_set m1 c v) (rset (cn z) v r).
+Proof using Type.
+  intros (Hh & H2 & H3 & H5) Hz Hc Hr.
+  assert (Hl : forall n, load (heap_set m1 c v) n = load m1 n) by reflexivity.
+  split; [split; [|split; [|split]]|].
+  - intros n c'. rewrite Hl. unfold heap_set. cbn [mheap]. rewrite set_nth_length. apply Hh.
+  - intros n. rewrite !Hl. apply H2.
+  - intros n1 n2 c'. rewrite !Hl. apply H3.
+  - intros n. rewrite Hl. apply H5.
+  - intros n. rewrite rget_rset. unfold value_of at 1. rewrite Hl. unfold heap_set. cbn [mheap].
+    destruct (str_eqb (cn z) (cn n)) eqn:E.
+    + apply str_eqb_eq in E. rewrite (H2 n), <- E, <- (H2 z), Hz. rewrite nth_error_set_nth by exact Hc.
+      now rewrite Nat.eqb_refl.
+    + assert (Hne : load m1 n <> Some c).
+      { intros A. rewrite (H3 _ _ _ Hz A), str_eqb_refl in E. discriminate. }
+      rewrite (Hr n Hne). unfold value_of. destruct (load m1 n) as [c'|]; [|reflexivity].
+      rewrite nth_error_set_nth by exact Hc. destruct (Nat.eqb c c') eqn:Ec; [|reflexivity].
+      apply Nat.eqb_eq in Ec. congruence.
+Qed.
+
+Lemma operand_read m1 o v : oname o <> [] -> value_of m1 (oname o) = Some v ->
+  exists cx, operand_cell m1 o = Ok cx /\ heap_get m1 cx = Ok v.
+Proof using Type.
+  unfold operand_cell, value_of, heap_get. intros Hn. destruct (oname o) as [|ch t] eqn:En; [congruence|].
+  destruct (load m1 (ch :: t)) as [cx|]; [|discriminate]. intros H. exists cx. split; [reflexivity|]. now rewrite H.
+Qed.
+
+Lemma loaded_value m n : heap_ok m -> load m n <> None -> exists v, value_of m n = Some v.
+Proof using Type.
+  intros Hh Hn. unfold value_of. destruct (load m n) as [c|] eqn:E; [|congruence].
+  destruct (nth_error (mheap m) c) as [v|] eqn:Ev; [eauto|]. apply nth_error_None in Ev. specialize (Hh _ _ E). lia.
+Qed.
+
+(* one instruction whose inputs are bound: both machines succeed and stay related *)
+Lemma refine_step m r i : RInv m r ->
+  (forall o, In o (inputs (iopn i)) -> load m (oname o) <> None) ->
+  (forall o, In o (operands i) -> oname o <> []) ->
+  exists m2 r2, exec_instr m i = Ok m2 /\ lstep cn r (linstr_of i) = Ok r2 /\ RInv m2 r2 /\
+    load m2 (oname (iout i)) <> None /\ (forall n, load m n <> None -> load m2 n <> None).
+Proof using Type.
+  intros [HS Hr] Hin Hne.
+  destruct (output_cell_sinv m (iout i) HS) as (HS1 & Hz & Hc & Hval & Hld).
+  set (m1 := fst (output_cell m (iout i))) in *. set (c := snd (output_cell m (iout i))) in *.
+  assert (Hh : heap_ok m) by apply HS.
+  (* what an input operand holds, on both sides *)
+  assert (Hop : forall o, In o (inputs (iopn i)) -> exists v cx,
+            operand_cell m1 o = Ok cx /\ heap_get m1 cx = Ok v /\ rget r (cn (operand_str o)) = Some v).
+  { intros o Ho. destruct (loaded_value m (oname o) Hh (Hin o Ho)) as (v & Ev).
+    assert (Hno : oname o <> []) by (apply Hne; unfold operands; apply in_or_app; now left).
+    destruct (operand_read m1 o v Hno) as (cx & E1 & E2); [rewrite Hval; [exact Ev|left; apply Hin, Ho]|].
+    exists v, cx. split; [exact E1|]. split; [exact E2|]. rewrite operand_str_named by exact Hno. rewrite Hr. exact Ev. }
+  assert (Hzo : operand_str (iout i) = oname (iout i)).
+  { apply operand_str_named, Hne. unfold operands. apply in_or_app. right. now left. }
+  assert (Hfin : forall v, RInv (heap_set m1 c v) (rset (cn (operand_str (iout i))) v r) /\
+            load (heap_set m1 c v) (oname (iout i)) <> None /\
+            (forall n, load m n <> None -> load (heap_set m1 c v) n <> None)).
+  { intros v. split; [|split].
+    - rewrite Hzo. apply write_rinv; auto. intros n Hn. rewrite Hr. symmetry. apply Hval. right. intros ->. contradiction.
+    - change (load m1 (oname (iout i)) <> None). rewrite Hz. discriminate.
+    - intros n Hn. change (load m1 n <> None). rewrite Hld by exact Hn. exact Hn. }
+  unfold exec_instr, linstr_of. fold m1. fold c. destruct (iopn i) as [x y|x|x sh]; cbn [inputs] in Hop; cbn [lstep].
+  - destruct (Hop x (or_introl eq_refl)) as (vx & cx & Ex & Gx & Rx).
+    destruct (Hop y (or_intror (or_introl eq_refl))) as (vy & cy & Ey & Gy & Ry).
+    rewrite Ex. cbn [obind]. rewrite Ey. cbn [obind]. rewrite Gx. cbn [obind]. rewrite Gy. cbn [obind]. rewrite Rx, Ry.
+    eexists. eexists. split; [reflexivity|]. split; [reflexivity|]. apply Hfin.
+  - destruct (Hop x (or_introl eq_refl)) as (vx & cx & Ex & Gx & Rx).
+    rewrite Ex. cbn [obind]. rewrite Gx. cbn [obind]. rewrite Rx.
+    eexists. eexists. split; [reflexivity|]. split; [reflexivity|]. apply Hfin.
+  - destruct (Hop x (or_introl eq_refl)) as (vx & cx & Ex & Gx & Rx).
+    rewrite Ex. cbn [obind]. rewrite Gx. cbn [obind]. rewrite Rx.
+    eexists. eexists. split; [reflexivity|]. split; [reflexivity|]. apply Hfin.
+Qed.
+
+End Refine.
+
+(* ------------------------------------------------------------------ a whole allocated program *)
+Lemma inputs_rename n i o : In o (inputs (iopn (rename_instr n i))) ->
+  exists o0, In o0 (inputs (iopn i)) /\ o = rename_operand n o0.
+Proof.
+  unfold rename_instr. cbn [iopn]. destruct (iopn i) as [x y|x|x sh]; cbn [rename_op inputs In]; intros H.
+  - destruct H as [<-|[<-|[]]]; [exists x|exists y]; auto.
+  - destruct H as [<-|[]]. exists x. auto.
+  - destruct H as [<-|[]]. exists x. auto.
+Qed.
+
+Lemma refine_exec cn names : forall todo d l m r, wf_from d l todo -> RInv cn m r ->
+  (forall k, In k d -> load m (ident names k) <> None) ->
+  (forall i o, In i todo -> In o (operands (rename_instr names i)) -> oname o <> []) ->
+  exists m' r', exec m (map (rename_instr names) todo) = Ok m' /\
+                lexec cn r (map linstr_of (map (rename_instr names) todo)) = Ok r' /\ RInv cn m' r'.
+Proof.
+  induction todo as [|i rest IH]; intros d l m r Hwf HR Hd Hne.
+  - exists m, r. repeat split; auto; apply HR.
+  - destruct Hwf as (_ & Hin & Hrest).
+    destruct (refine_step cn m r (rename_instr names i) HR) as (m2 & r2 & E1 & E2 & HR2 & Hout & Hkeep).
+    + intros o Ho. destruct (inputs_rename _ _ _ Ho) as (o0 & Ho0 & ->). cbn [rename_operand oname].
+      apply Hd, Hin. unfold in_indexes. now apply in_map.
+    + intros o Ho. apply (Hne i o); [now left|exact Ho].
+    + destruct (IH (out_index i :: d) (out_index i) m2 r2 Hrest HR2) as (m' & r' & E3 & E4 & HR').
+      * intros k [<-|Hk]; [exact Hout|apply Hkeep, Hd, Hk].
+      * intros j o Hj Ho. apply (Hne j o); [now right|exact Ho].
+      * exists m', r'. cbn [map exec lexec]. rewrite E1, E2. cbn [obind]. auto.
+Qed.
+
+Lemma init_load_eq mode inp outp x n : load (init_machine mode inp outp x) n =
+  match mode with
+  | Separate => if str_eqb inp n then Some O else None
+  | Aliased => if str_eqb outp n then Some O else if str_eqb inp n then Some O else None
+  end.
+Proof.
+  unfold init_machine, new_cell, new_machine. cbn [fst snd mheap mstate length].
+  destruct mode; rewrite !load_store; unfold load; cbn [mstate slookup]; reflexivity.
+Qed.
+
+Lemma init_heap mode inp outp x : mheap (init_machine mode inp outp x) = [x].
+Proof. destruct mode; reflexivity. Qed.
+
+Lemma init_rinv mode cfg x : cfg_in cfg <> cfg_out cfg ->
+  RInv (canon mode cfg) (init_machine mode (cfg_in cfg) (cfg_out cfg) x) [(cfg_in cfg, x)].
+Proof.
+  intros Hio. set (inp := cfg_in cfg) in *. set (outp := cfg_out cfg) in *.
+  assert (Eio : str_eqb inp outp = false) by now apply str_eqb_neq.
+  assert (Eoi : str_eqb outp inp = false) by (apply str_eqb_neq; congruence).
+  assert (Hcn : forall n, canon mode cfg n = match mode with Separate => n | Aliased => if str_eqb n outp then inp else n end) by reflexivity.
+  assert (Hsym : forall a b, str_eqb a b = str_eqb b a).
+  { intros a b. destruct (str_eqb a b) eqn:E; [apply str_eqb_eq in E; subst; now rewrite str_eqb_refl|].
+    destruct (str_eqb b a) eqn:E2; [apply str_eqb_eq in E2; subst; rewrite str_eqb_refl in E; discriminate|reflexivity]. }
+  split; [split; [|split; [|split]]|].
+  - intros n c H. apply init_load in H as [-> _]. rewrite init_heap. cbn. lia.
+  - intros n. rewrite !init_load_eq, Hcn. destruct mode; [reflexivity|].
+    rewrite (Hsym n outp). destruct (str_eqb outp n) eqn:E; [now rewrite Eoi, str_eqb_refl|now rewrite E].
+  - intros n1 n2 c H1 H2. apply init_load in H1 as [_ H1]. apply init_load in H2 as [_ H2]. rewrite !Hcn.
+    destruct mode.
+    + destruct H1 as [->|[Em _]]; [|discriminate]. destruct H2 as [->|[Em _]]; [reflexivity|discriminate].
+    + destruct H1 as [->|[_ ->]]; destruct H2 as [->|[_ ->]]; rewrite ?Eio, ?str_eqb_refl; reflexivity.
+  - intros n. rewrite Hcn, init_load_eq. destruct mode; [congruence|].
+    rewrite (Hsym n outp). destruct (str_eqb outp n); [discriminate|congruence].
+  - intros n. unfold value_of. rewrite init_load_eq, init_heap, Hcn. unfold rget. cbn [lookup]. destruct mode.
+    + destruct (str_eqb inp n); reflexivity.
+    + rewrite (Hsym n outp). destruct (str_eqb outp n) eqn:E; [now rewrite str_eqb_refl|]. destruct (str_eqb inp n); reflexivity.
+Qed.
+
+Lemma wf_ir_reads_zero p : wf_ir p -> p <> [] -> In 0 (reads p).
+Proof.
+  destruct p as [|i r]; [congruence|]. intros (_ & Hin & _) _. unfold reads. cbn [flat_map]. apply in_or_app. left.
+  pose proof (in_indexes_nonempty i) as Hne. destruct (in_indexes i) as [|k t] eqn:E; [congruence|].
+  destruct (Hin k (or_introl eq_refl)) as [<-|[]]. now left.
+Qed.
+
+(* The listing of an allocated program, executed literally on a register file: every register is
+   written before it is read (no "unwritten" error), the output register ends with the last chain
+   element in both aliasing modes, the input register is intact in separate mode. *)
+Theorem allocated_listing cfg p lst nmap x q ts : cfg_ok cfg -> wf_ir p -> last_instr p = Some lst ->
+  consistent nmap p -> allocate cfg p = Ok (q, ts) ->
+  forall mode, exists r, lexec (canon mode cfg) [(cfg_in cfg, x)] (map linstr_of q) = Ok r /\
+    reg_value mode cfg r (cfg_out cfg) = Some (chain_values x p (out_index lst)) /\
+    (mode = Separate -> reg_value mode cfg r (cfg_in cfg) = Some x).
+Proof.
+  intros Hcfg Hwf El Hc Ea mode.
+  destruct (allocate_shape cfg p lst nmap Hwf El Hc) as (idx & Hidx & E).
+  destruct (last_instr_split p lst El) as (front & Ep).
+  destruct (allocated_exec cfg p lst nmap x Hcfg Hwf El Hc) as (q' & ts' & E' & Hnamed & _ & Hrun & _).
+  rewrite Ea in E, E'. injection E' as <- <-. injection E as Eq _.
+  destruct (Hrun mode) as (mi & Erun & Hout & Hinp).
+  set (names := opname (run_naming cfg p idx lst)) in *.
+  destruct (refine_exec (canon mode cfg) names p [0] 0 (init_machine mode (cfg_in cfg) (cfg_out cfg) x) [(cfg_in cfg, x)] Hwf)
+    as (m' & r' & E1 & E2 & HR).
+  - apply init_rinv, (ck_io cfg Hcfg).
+  - intros k [<-|[]]. unfold names.
+    rewrite (ident_nm cfg p lst front idx Hwf Ep Hidx 0) by (left; apply wf_ir_reads_zero; [exact Hwf|apply (last_instr_nonempty p lst El)]).
+    change (nm_of cfg (lastinputread p) (V (scan p) (out_index lst)) (scan p) (vname (run_naming cfg p idx lst)) 0) with (cfg_in cfg).
+    rewrite init_load_eq. destruct mode; rewrite ?str_eqb_refl; [discriminate|]. destruct (str_eqb (cfg_out cfg) (cfg_in cfg)); discriminate.
+  - intros i o Hi Ho. apply (Hnamed (rename_instr names i) o); [rewrite Eq; now apply in_map|exact Ho].
+  - rewrite <- Eq in E1, E2. unfold run_interp in Erun. rewrite Erun in E1. injection E1 as <-.
+    exists r'. split; [exact E2|]. destruct HR as [_ HR]. unfold reg_value. rewrite !HR. auto.
+Qed.
